@@ -788,10 +788,6 @@ package ion
 //@ ensures[C12,C19] old(w.err) != nil ==> err == old(w.err) && w.err == old(w.err)
 //@ ensures[C12,C19] err != nil ==> w.err != nil
 
-//@ func (*binaryWriter).WriteFloat
-//@ modifies *
-//@ ensures[C12,C19] old(w.err) != nil ==> err == old(w.err) && w.err == old(w.err)
-//@ ensures[C12,C19] err != nil ==> w.err != nil
 
 //@ func (*binaryWriter).WriteDecimal
 //@ modifies *
@@ -962,10 +958,6 @@ package ion
 //@ ensures[C12,C19] old(w.err) != nil ==> err == old(w.err) && w.err == old(w.err)
 //@ ensures[C12,C19] err != nil ==> w.err != nil
 
-//@ func (*textWriter).Finish
-//@ modifies *
-//@ ensures[C12,C19] old(w.err) != nil ==> err == old(w.err) && w.err == old(w.err)
-
 //@ func (*writer).FieldName
 //@ modifies *
 //@ ensures[C12] old(w.err) != nil ==> err == old(w.err) && w.err == old(w.err)
@@ -1012,7 +1004,11 @@ package ion
 //@ modifies *
 
 //@ func (*binaryWriter).beginValue
+//@ split returns
 //@ modifies *
+//@ ensures[C12] (old(w.lst) == nil || old(w.wroteLST)) && old(len(w.ctx.arr)) > 0 && old(w.ctx.arr[len(w.ctx.arr)-1]) == ctxInStruct && old(w.fieldName) == nil ==> err != nil
+//@ ensures[C12] (old(w.lst) == nil || old(w.wroteLST)) && old(len(w.ctx.arr)) > 0 && old(w.ctx.arr[len(w.ctx.arr)-1]) == ctxInStruct && old(w.fieldName) != nil &&
+//@    old(w.fieldName.LocalSID) == SymbolIDUnknown && old(w.fieldName.Text) == nil ==> err != nil
 
 //@ func (*binaryWriter).endValue
 //@ modifies *
@@ -1052,3 +1048,33 @@ package ion
 
 //@ func writeSymbolFromString
 //@ modifies *
+
+// A value written inside a struct without a pending field name is refused (C12).
+//@ func (*binaryWriter).writeValue
+//@ modifies *
+//@ ensures[C12,C19] old(w.err) != nil ==> err == old(w.err) && w.err == old(w.err)
+//@ ensures[C12,C19] err != nil ==> w.err != nil
+//@ ensures[C12] old(w.err) == nil && (old(w.lst) == nil || old(w.wroteLST)) && old(len(w.ctx.arr)) > 0 && old(w.ctx.arr[len(w.ctx.arr)-1]) == ctxInStruct && old(w.fieldName) == nil ==> err != nil
+
+// The float encoding is lossless: four bytes only when the value survives the round trip
+// through float32 (C13, C01).
+//@ func (*binaryWriter).WriteFloat
+//@ split returns
+//@ reveal specBEValue
+//@ modifies *
+//@ ensures[C12,C19] old(w.err) != nil ==> err == old(w.err) && w.err == old(w.err)
+//@ ensures[C12,C19] err != nil ==> w.err != nil
+//@ atcall[C04,C13] (*binaryWriter).writeValue len(a2) == 1 || len(a2) == 5 || len(a2) == 9
+//@ atcall[C01,C13] (*binaryWriter).writeValue len(a2) == 1 ==> a2[0] == 0x40 && val == 0 && !math.Signbit(val)
+//@ atcall[C01,C13] (*binaryWriter).writeValue len(a2) == 5 ==> a2[0] == 0x44 && (val != val || float64(math.Float32frombits(uint32(specBEValue(a2, 1, 4)))) == val)
+//@ atcall[C01,C13] (*binaryWriter).writeValue len(a2) == 5 && val != val ==> math.Float32frombits(uint32(specBEValue(a2, 1, 4))) != math.Float32frombits(uint32(specBEValue(a2, 1, 4)))
+//@ atcall[C01,C13] (*binaryWriter).writeValue len(a2) == 9 ==> a2[0] == 0x48 && math.Float64frombits(specBEValue(a2, 1, 8)) == val && val == val
+//@ atcall[C01,C13] (*binaryWriter).writeValue len(a2) == 5 && val == 0 ==> math.Signbit(float64(math.Float32frombits(uint32(specBEValue(a2, 1, 4)))))
+
+// The text writer's Finish keeps a pending separator unless it wrote the newline that
+// replaces it (C04, C12).
+//@ func (*textWriter).Finish
+//@ modifies *
+//@ ensures[C12,C19] old(w.err) != nil ==> err == old(w.err) && w.err == old(w.err)
+//@ ensures[C04,C12] err == nil && old(w.needsSeparator) && (old(w.emptyStream) || old(w.opts)&TextWriterQuietFinish != 0) ==> w.needsSeparator
+//@ ensures[C04,C12] err == nil ==> w.fieldName == nil && len(w.annotations) == 0
